@@ -23,6 +23,9 @@ mod c09;
 mod c10;
 mod c11;
 mod c12;
+mod c13;
+mod c14;
+mod c15;
 mod c16;
 mod c17;
 mod c18;
@@ -30,6 +33,7 @@ mod c19;
 mod c20;
 mod spec_lh5;
 mod spec_sig;
+pub mod spec_snap;
 
 use report::{Ctx, Evidence, Tier};
 use std::cell::RefCell;
@@ -76,6 +80,9 @@ fn checks() -> Vec<(&'static str, CheckFn)> {
         ("C10", c10::run as CheckFn),
         ("C11", c11::run as CheckFn),
         ("C12", c12::run as CheckFn),
+        ("C13", c13::run as CheckFn),
+        ("C14", c14::run as CheckFn),
+        ("C15", c15::run as CheckFn),
         ("C16", c16::run as CheckFn),
         ("C17", c17::run as CheckFn),
         ("C18", c18::run as CheckFn),
@@ -121,6 +128,10 @@ fn main() {
         }
     }
     install_panic_hook();
+    if id == "C15" && args.iter().any(|a| a == "--worker") {
+        c15::worker_main(&args);
+        return;
+    }
     let Some((_, f)) = checks().into_iter().find(|(n, _)| *n == id) else {
         eprintln!("unknown check {}", id);
         std::process::exit(2);
